@@ -26,6 +26,10 @@ var tableKeyHex = []string{
 	"034bd0188f7b87f958fdde01c72ddacb6ddc2d65bfe047af047bba6c1d8459e075",
 	"032cf3f13186e23bf4d7b1ef069c324da5c231ddae28d250b834e00d0f8f3cb480",
 	"027f089cdef1a143e231b9cf782aa2fd4663ef3f347da1c646c6cc32819cab02ad",
+	"02ec1eb8e3e3ddefeb7ab86e5efe0d3028bbe9a1ec19fd3918c0368c46b4f1d299",
+	"036c10034bef2bc0cc8c6154b2c3be35bf57ca203e2ed3aa1c8afb68e1b3d4add4",
+	"03d7b5f3e30b5d69b2ab69ca8714681dd947b24020de46f3b1bea6b9bb141d56dc",
+	"02c8bb34e46b144e77d567a6eaa1eae84d24dd75028d69a45dc6ac1e5143d1eb4f",
 }
 
 var tableKeys [][]byte
